@@ -633,7 +633,7 @@ def instances(tier):
     return out
 
 
-MATRIX_MAX_WIRES = 8
+MATRIX_MAX_WIRES = 6
 
 
 def routes_for(t, a):
@@ -686,11 +686,10 @@ def _decode(idx, regs):
     return out
 
 
-def _judge(t, variant, route, Tm, regs, dom, exp_vals, E, O, extra):
+def _judge(sig0, Tm, regs, dom, exp_vals, E, O, extra):
     """Compare observed columns O with expected E (both D x C)."""
     from mc import x_tmpl as X
 
-    sig0 = f"{t}[{variant}]:{route.split(':')[0] if route.startswith('rule:') is False else route}"
     amps = X.overlaps(E, O)
     norms = np.sqrt(np.sum(np.abs(O) ** 2, axis=0))
     if np.any(np.abs(norms - 1) > 1e-7):
@@ -757,7 +756,7 @@ def check(spec):
         if M.shape != (2 ** n, 2 ** n):
             return bad(f"{sigbase}:shape", list(M.shape), [2 ** n, 2 ** n], **extra)
         O = M @ cols
-        v = _judge(t, variant, route, Tm, regs, dom, exp_vals, E, O, extra)
+        v = _judge(sigbase, Tm, regs, dom, exp_vals, E, O, extra)
         return v or ok(outcome=[t, variant, "matrix", fp], nontrivial=nontrivial)
 
     if route == "device":
@@ -766,16 +765,17 @@ def check(spec):
         amp = amp / np.linalg.norm(amp)
         psi = cols @ amp
         tape = qp.tape.QuantumScript([qp.StatePrep(psi, wires=order), op], [qp.state()])
-        dev = qp.device("default.qubit")
-        res = np.asarray(qp.execute([tape], dev)[0], dtype=complex).reshape(-1)
-        if res.size != 2 ** n:
-            # dynamically allocated wires may be appended by the device: they have to be |0>
-            if res.size % (2 ** n) != 0:
-                return bad(f"{sigbase}:shape", int(res.size), 2 ** n, **extra)
-            r2 = res.reshape(2 ** n, -1)
-            if float(np.sum(np.abs(r2[:, 1:]) ** 2)) > 1e-12:
-                return bad(f"{sigbase}:work-not-restored", "extra device wires not |0>", "|0>", **extra)
-            res = r2[:, 0]
+        try:
+            dev = qp.device("default.qubit", wires=order)
+            res = np.asarray(qp.execute([tape], dev)[0], dtype=complex).reshape(-1)
+        except qp.exceptions.AllocationError:
+            # the decomposition allocates work wires dynamically: offer spare device wires, they have to come back as |0>
+            spare = [f"_spare{i}" for i in range(6)]
+            dev = qp.device("default.qubit", wires=order + spare)
+            res = np.asarray(qp.execute([tape], dev)[0], dtype=complex).reshape(2 ** n, -1)
+            if float(np.sum(np.abs(res[:, 1:]) ** 2)) > 1e-12:
+                return bad(f"{sigbase}:work-not-restored", "spare device wires not |0> after the template", "|0>", **extra)
+            res = res[:, 0]
         want = E @ amp
         ov = np.vdot(want, res)
         if abs(abs(ov) - 1) > 1e-7 or np.max(np.abs(res - ov * want)) > 1e-7:
@@ -807,7 +807,7 @@ def check(spec):
     extra["gates"] = sim.gates
     if leaked > 1e-12:
         return bad(f"{sigbase}:work-not-restored", f"dynamic work wires hold weight {leaked:.3g} outside |0>", "|0>", **extra)
-    v = _judge(t, variant, route, Tm, regs, dom, exp_vals, E, O, extra)
+    v = _judge(sigbase, Tm, regs, dom, exp_vals, E, O, extra)
     if v:
         return v
     ph = X.overlaps(E, O)[0]
